@@ -103,6 +103,10 @@ func mkStore(cfg *vlib.Config, users []seedUser) (root, base, cfgFile string, er
 }
 
 func startAgent(root, cfgFile string, o agentOpts) (*agent, error) {
+	return startAgentWith(agentBin(), root, cfgFile, o)
+}
+
+func startAgentWith(binary, root, cfgFile string, o agentOpts) (*agent, error) {
 	a := &agent{root: root, cfgFile: cfgFile, sock: filepath.Join(root, "auth.sock"), lineCh: make(chan string, 1000), done: make(chan struct{})}
 	if len(o.listeners) == 0 {
 		o.listeners = []string{"sasl", "http", "ldap"}
@@ -133,7 +137,7 @@ func startAgent(root, cfgFile string, o agentOpts) (*agent, error) {
 		args = append(args, "--hooks-dir", o.hooksDir)
 	}
 	args = append(args, "run", "--listener", lf)
-	a.cmd = exec.Command(agentBin(), args...)
+	a.cmd = exec.Command(binary, args...)
 	a.cmd.Env = append(cleanEnv(), o.env...)
 	pr, pw, _ := os.Pipe()
 	a.cmd.Stdout, a.cmd.Stderr = pw, pw
